@@ -34,6 +34,7 @@ func init() {
 			{ID: "C12-R5", Title: "the run context (and the OS in it) is derived from this invocation's context", Floor: 1, Run: runCtxFromArgument},
 			{ID: "C12-R6", Title: "VirtualOS methods stay virtual", Floor: 20, Run: virtualOSStaysVirtual},
 			{ID: "C12-R7", Title: "option lists handed to the VM come from Config.VMOpts", Floor: 2, Run: vmOptionsFromConfig},
+			{ID: "C12-R8", Title: "context installers return a derived context carrying the value", Floor: 3, Run: ctxInstallersReturnDerived},
 		},
 	})
 }
